@@ -1,0 +1,31 @@
+// Copyright 2024 The Mellium Contributors.
+// Use of this source code is governed by the BSD 2-clause
+// license that can be found in the LICENSE file.
+
+//go:build verif
+
+// Package verifhook provides no-op yield points that a verification harness
+// can observe and block on when the library is built with the "verif" tag.
+package verifhook
+
+import (
+	"sync/atomic"
+)
+
+var cb atomic.Pointer[func(point, key string)]
+
+// Set registers f to be called at every yield point (nil removes it).
+func Set(f func(point, key string)) {
+	if f == nil {
+		cb.Store(nil)
+		return
+	}
+	cb.Store(&f)
+}
+
+// Yield reports that the calling goroutine reached the named point.
+func Yield(point, key string) {
+	if f := cb.Load(); f != nil {
+		(*f)(point, key)
+	}
+}
